@@ -52,11 +52,12 @@ def run(tier, seed, replay):
     uni = ["é", "✓", "\U0001f600", "\n", "\t", "\\", "\"", "'", "\x01", "\x7f", " ", "%%", "%a%", "%env(\"H\")%", "%todo()%", "%envInt(\"N\", 5)%", "%a.b-c_d%", "x", "1"]
     for _ in range(300 if tier == "quick" else 20000):
         cands.append("".join(r.choice(uni) for _ in range(r.randint(1, 7))))
+    fn_cands = []
     # function tokens whose argument text itself contains parentheses, quotes, commas, percent-free operators
     for fn in ("env", "envInt", "todo"):
         for args in ["", "()", "(1)", "f()", "\"a\", f(1, 2)", "int(8080)", "(8000)+(81)", "\")\"", "\"(\"", "a, b", " 1 ", "((x))", "x)(y", ")(", "\"é\"", "1,2,3", "f(g(h()))"]:
-            cands.append("%%%s(%s)%%" % (fn, args))
-            cands.append("pre %%%s(%s)%% post" % (fn, args))
+            fn_cands.append("%%%s(%s)%%" % (fn, args))
+            fn_cands.append("pre %%%s(%s)%% post" % (fn, args))
     cands = sorted(set(cands), key=lambda x: (len(x), x))
     specs, plan = [], []
     for a in range(0, len(cands), 250):
@@ -71,6 +72,11 @@ def run(tier, seed, replay):
         sp["what"] = ["strings"]
         specs.append(sp)
         plan.append({"k%d" % i: c for i, c in enumerate(ch)})
+    for c in fn_cands:
+        sp = common.mk_spec(len(specs), [{"parameters": {"k0": c}}], flags={"ignore_params": True}, keep_out=True)
+        sp["what"] = ["function-token"]
+        specs.append(sp)
+        plan.append({})
     if replay:
         rp = json.load(open(replay))["replay"]
         specs = [dict(rp, id="0", dump=True, build_info="bi")]
@@ -78,6 +84,8 @@ def run(tier, seed, replay):
     obs = build.gx_run(tooldir, specs)
     common.real_sanity(out, specs, obs, "C03")
     common.correspondence(out, env, specs, obs, "C03 tokenizer / generated provider code")
+    from vlib import codegen
+    codegen.format_verdict_correspondence(out, env, tooldir, specs, obs, "C03", "a pattern whose every token is well formed is not rejected at build time")
     dist = {}
     nontrivial = set()
     evals = 0
@@ -120,8 +128,29 @@ def run(tier, seed, replay):
                 break
             if not rt:
                 out.violation("quote-roundtrip:%s" % b.hex()[:16], "strconv.Unquote(fmt.Sprintf(\"%%+q\", s)) != s for bytes %s" % b.hex(), {"bytes": b.hex()})
+    # ---- run-time half: GetParam on the real generated container (type and value, single vs multi chunk, env/envInt/todo, failing function)
+    from . import rtcommon
+    shapes = ["%%", "a%%b", "%lit%", "x%lit%y", "%n%", "%n%%n%", "%b%", " %b%", "%nil%", "%nil%!", "%f%", "%u%", "%s%", "%s%%s%", "%%%s%%%", "%env(\"GV_SET\")%", "%env(\"GV_NOPE\")%",
+              "%env(\"GV_NOPE\", \"d\")%", "%envInt(\"GV_INT\")%", "%envInt(\"GV_INT\")%0", "%envInt(\"GV_BAD\")%", "%envInt(\"GV_NOPE\", 7)%", "%env(\"GV_EMPTY\")%", "%todo()%", "%todo(\"msg\")%",
+              "%fn(\"x\", 3)%", "%fn(\"fail\")%", "pre %fn(\"fail\")% post", "é%s%✓", "%lit% %n% %b% %nil% %f% %u%", "100%%", "%%%%", "%env(\"GV_SET\")%/%env(\"GV_SET\")%"]
+    base = {"meta": {"imports": {"al": "gv.test/fix/alpha"}, "functions": {"fn": "al.Fn"}},
+            "parameters": {"lit": "text", "n": 42, "b": True, "nil": None, "f": 1.5, "u": cfggen.Raw("18446744073709551615"), "s": "é\"q\"\\"}}
+    rcfg = json.loads(json.dumps({k: v for k, v in base.items() if k != "parameters"}))
+    rcfg["parameters"] = dict(base["parameters"])
+    for i, sh in enumerate(shapes):
+        rcfg["parameters"]["k%d" % i] = sh
+    rcfg["services"] = {"holder": {"constructor": "NewA", "arguments": shapes[:12]}}
+    rsp = common.mk_spec(0, [rcfg], keep_out=True)
+    rsp["cfg"] = rcfg
+    rsp["what"] = ["runtime-params"]
+    rh = [{"op": "param", "name": p} for p in rcfg["parameters"]] + [{"op": "param", "name": p} for p in list(rcfg["parameters"])[:6]] + [{"op": "get", "name": "holder"}]
+    rs2, hs2, _ = rtcommon.gen_cases(seed, "c03rt", 15 if tier == "quick" else 200, weights={"todo": 0.0}, hist_len=0)
+    for k, sp in enumerate(rs2):
+        hs2[k] = [{"op": "param", "name": p} for p in sp["cfg"]["parameters"]]
+    robs, rl, ml, racc = rtcommon.run_histories(out, tooldir, env, [rsp] + rs2, [rh] + hs2, "C03 GetParam at run time", "C03")
+    dist["runtime_getparam"] = sum(len(rl[k]) for k in racc)
     out.coverage.update({
-        "evaluations": evals + len(qb), "distinct_nontrivial": len(nontrivial), "exhaustive": tier == "thorough",
+        "evaluations": evals + len(qb) + sum(len(rl[k]) for k in racc), "distinct_nontrivial": len(nontrivial), "exhaustive": tier == "thorough", "programs": len(racc),
         "rule": "every string up to length %d over %s (quick: all up to length 2, half of length 3, a sample of length 4) + random sequences over multi-byte runes, quotes, backslashes, newlines, control characters, astral runes and whole tokens, as parameter values and as service / call / field / decorator arguments; %%+q quoting compared with Go on the same strings and on invalid UTF-8; non-trivial = rejected pattern" % (maxlen, SIGMA),
         "distribution": dist, "samples": [{"pattern": c, "documented_verdict": classify(c)} for c in ["%", "%%", "%a%", "%a b%", "%zz()%", "%env(\"X\")%", "100%%", "a%b%c%"]],
     })
